@@ -7,6 +7,7 @@ package main
 
 import (
 	"bytes"
+	"encoding/json"
 	"fmt"
 	"go/types"
 	"math"
@@ -621,6 +622,82 @@ func init() {
 	} {
 		externals[n] = noop
 	}
+	// strings are immutable values in the executor: a clone is the string itself
+	// (the real code builds it through unsafe.String(&b[0], n))
+	for _, n := range []string{"internal/stringslite.Clone", "strings.Clone"} {
+		externals[n] = func(w *world, _ *frame, _ *ssa.Function, args []value) (value, bool) { return args[0], true }
+	}
+	// json.Marshal of a concrete string, bool or []byte (the real code goes
+	// through reflection); anything else, or symbolic content, is unsupported.
+	jsonMarshal := func(escapeHTML bool) externalFn {
+		return func(w *world, _ *frame, _ *ssa.Function, args []value) (value, bool) {
+			itf, ok := args[0].(iface)
+			if !ok {
+				return nil, false
+			}
+			var gv any
+			switch x := itf.v.(type) {
+			case string:
+				gv = x
+			case bool:
+				gv = x
+			case []value:
+				bs := make([]byte, len(x))
+				for i, e := range x {
+					b, isB := e.(byte)
+					if !isB {
+						panic(unsupported("json.Marshal of symbolic bytes"))
+					}
+					bs[i] = b
+				}
+				gv = bs
+			case symstr:
+				// symbolic content: bytes that encoding/json copies unchanged
+				// (printable ASCII other than the quote, the backslash and,
+				// with HTML escaping, < > &) stay symbolic; a byte that may
+				// need escaping takes the path out of the model.
+				r := []value{byte('"')}
+				tc := w.tc
+				for _, e := range x.b {
+					if cb, isB := e.(byte); isB {
+						if cb < 0x20 || cb >= 0x7f || cb == '"' || cb == '\\' || (escapeHTML && (cb == '<' || cb == '>' || cb == '&')) {
+							panic(unsupported("json.Marshal model: concrete byte needing escape next to symbolic content"))
+						}
+						r = append(r, cb)
+						continue
+					}
+					t := w.termOf(e)
+					safe := tc.And(tc.BVCmp("bvuge", t, tc.BV(8, 0x20)), tc.BVCmp("bvult", t, tc.BV(8, 0x7f)),
+						tc.Not(tc.Eq(t, tc.BV(8, '"'))), tc.Not(tc.Eq(t, tc.BV(8, '\\'))))
+					if escapeHTML {
+						safe = tc.And(safe, tc.Not(tc.Eq(t, tc.BV(8, '<'))), tc.Not(tc.Eq(t, tc.BV(8, '>'))), tc.Not(tc.Eq(t, tc.BV(8, '&'))))
+					}
+					if !w.branch(safe) {
+						panic(unsupported("json.Marshal of a symbolic byte that needs escaping"))
+					}
+					r = append(r, e)
+				}
+				r = append(r, byte('"'))
+				return tuple{r, iface{}}, true
+			default:
+				panic(unsupported(fmt.Sprintf("json.Marshal of %T (reflection)", itf.v)))
+			}
+			var buf bytes.Buffer
+			enc := json.NewEncoder(&buf)
+			enc.SetEscapeHTML(escapeHTML)
+			if err := enc.Encode(gv); err != nil {
+				panic(unsupported("json.Marshal model: " + err.Error()))
+			}
+			out := bytes.TrimSuffix(buf.Bytes(), []byte("\n"))
+			r := make([]value, len(out))
+			for i, b := range out {
+				r[i] = b
+			}
+			return tuple{r, iface{}}, true
+		}
+	}
+	externals["encoding/json.Marshal"] = jsonMarshal(true)
+	externals["cuelang.org/go/internal/encoding/json.Marshal"] = jsonMarshal(false)
 	externals["(*sync.Mutex).TryLock"] = func(w *world, _ *frame, _ *ssa.Function, args []value) (value, bool) { return true, true }
 	externals["(*sync.WaitGroup).Wait"] = func(w *world, _ *frame, _ *ssa.Function, args []value) (value, bool) {
 		// run all pending goroutines (order explored)
@@ -664,12 +741,14 @@ func init() {
 			return *(args[0].(*value)), true
 		}
 		externals["sync/atomic.Store"+ty] = func(w *world, _ *frame, _ *ssa.Function, args []value) (value, bool) {
+			w.logWrite(args[0].(*value))
 			*(args[0].(*value)) = args[1]
 			return nil, true
 		}
 		externals["sync/atomic.Swap"+ty] = func(w *world, _ *frame, _ *ssa.Function, args []value) (value, bool) {
 			p := args[0].(*value)
 			old := *p
+			w.logWrite(p)
 			*p = args[1]
 			return old, true
 		}
@@ -677,6 +756,7 @@ func init() {
 			p := args[0].(*value)
 			eq := w.eqTerm(fn.Signature.Params().At(1).Type(), *p, args[1])
 			if w.branch(eq) {
+				w.logWrite(p)
 				*p = args[2]
 				return true, true
 			}
@@ -685,6 +765,7 @@ func init() {
 		if ty != "Pointer" {
 			externals["sync/atomic.Add"+ty] = func(w *world, _ *frame, fn *ssa.Function, args []value) (value, bool) {
 				p := args[0].(*value)
+				w.logWrite(p)
 				*p = w.binop(tokenADD, fn.Signature.Params().At(1).Type(), *p, args[1])
 				return *p, true
 			}
